@@ -2909,14 +2909,31 @@ V(id='c29-mdnewton-nan-step-unguarded', prop='C29', file='mpmath/calculus/optimi
   old="            if any(si != si for si in s):\n", new="            if False:\n",
   expect='fire:R-R6:MDNewton')
 V(id='c38-iv-takes-foreign-constant-by-mpf', prop='C38', file='mpmath/ctx_iv.py',
-  old="    if isinstance(x, _constant) and prec: return x.func(prec, rounding)\n", new="",
+  old="    if isinstance(x, _constant) and prec and not x.contextual:\n        return x.func(prec, rounding)\n", new="",
   expect='fire:X-R13:convert_mpf_')
 V(id='c17-iv-takes-foreign-constant-by-mpf', prop='C17', file='mpmath/ctx_iv.py',
-  old="    if isinstance(x, _constant) and prec: return x.func(prec, rounding)\n", new="",
+  old="    if isinstance(x, _constant) and prec and not x.contextual:\n        return x.func(prec, rounding)\n", new="",
   expect='fire:K-R7:convert_mpf_')
 V(id='c38-mpf-own-constants-only', prop='C38', file='mpmath/ctx_mp_python.py',
-  old="        if isinstance(x, _constant): return x.func(prec, rounding)\n", new="        if isinstance(x, cls.context.constant): return x.func(prec, rounding)\n",
+  old="        if isinstance(x, _constant) and (not x.contextual or\n            isinstance(x, cls.context.constant)):\n", new="        if isinstance(x, cls.context.constant):\n",
   expect='fire:X-R13:mpf_convert_arg')
 V(id='c10-polyval-constant-unrounded', prop='C10', file='mpmath/calculus/polynomials.py',
   old="    if len(coeffs) == 1:\n        # (a constant polynomial: the value is the coefficient, rounded)\n        p = +p\n", new="",
   expect='fire:B-R8p:polyval')
+
+# ---- C38 X-R14 / C16 F-R15 / C17 K-R8 (fourth C16 hunt; fix ad677f0) ----
+for _p, _r in (('C38', 'X-R14'), ('C16', 'F-R15'), ('C17', 'K-R8')):
+    V(id='%s-eps-not-marked-contextual' % _p.lower(), prop=_p, file='mpmath/ctx_mp.py',
+      old="        eps.contextual = True\n", new="", expect='fire:%s:init_builtins' % _r)
+    V(id='%s-eps-evaluated-by-iv' % _p.lower(), prop=_p, file='mpmath/ctx_iv.py',
+      old="    if isinstance(x, _constant) and prec and not x.contextual:\n", new="    if isinstance(x, _constant) and prec:\n",
+      expect='fire:%s:convert_mpf_' % _r)
+    V(id='%s-eps-evaluated-by-convert' % _p.lower(), prop=_p, file='mpmath/ctx_mp_python.py',
+      old="        if isinstance(x, _constant) and not x.contextual:\n", new="        if isinstance(x, _constant):\n",
+      expect='fire:%s:convert' % _r)
+V(id='c38-eps-evaluated-by-mpf', prop='C38', file='mpmath/ctx_mp_python.py',
+  old="        if isinstance(x, _constant) and (not x.contextual or\n            isinstance(x, cls.context.constant)):\n",
+  new="        if isinstance(x, _constant):\n", expect='fire:X-R14:mpf_convert_arg')
+V(id='c38-benign-eps-test-reordered', prop='C38', file='mpmath/ctx_iv.py',
+  old="    if isinstance(x, _constant) and prec and not x.contextual:\n", new="    if prec and isinstance(x, _constant) and not x.contextual:\n",
+  expect='silent')
